@@ -126,6 +126,10 @@ def run(ctx):
         if err or a != a0 or b != b0:
             fst['prop_failures'] += 1
             fails.append(((text, ''), err or 'reading from a UTF-8 file differs from parsing the text'))
+    from harness.props.C05 import p_abandoned
+    multi = [t for t in texts_for_corr[:4000] if '\n\n' in t] or ['a: 1\n\nb: 2\n']
+    for x, why in ctx.prop('prop:unfinished-results', [(rng.choice(multi), rng.choice(texts_for_corr[:4000])) for _ in range(ctx.n(1500, 15000))], p_abandoned):
+        fails.append(((x[1], 'after an unfinished result for ' + repr(x[0])), why))
     ctx.notes.append('file route (open, UTF-8 decoding, newline translation) is exercised by execution only, not modelled')
 
     # correspondence: email fragment, splitter, both parsers
